@@ -267,7 +267,7 @@ def tvd_separable(ctx, g, dims, limiter):
 
 def scenarios(tier):
     T = []
-    D = {1: [[2], [3]], 2: [[2, 2]], 3: [[2, 2, 2]]}
+    D = {1: [[2], [3]], 2: [[2, 2], [3, 2]], 3: [[2, 2, 2], [1, 2, 3]]}
     if tier == 'thorough':
         D = {1: [[1], [2], [3], [4]], 2: [[2, 2], [1, 2], [3, 2]], 3: [[2, 2, 2], [2, 1, 2]]}
     TV = {1: [[3]], 2: [[2, 2]], 3: []} if tier == 'quick' else {1: [[3], [4]], 2: [[2, 2], [3, 2]], 3: [[2, 2, 2]]}
@@ -276,7 +276,7 @@ def scenarios(tier):
         for dims in D[nd]:
             ds = 'x'.join(map(str, dims))
             T.append({'name': 'units/%s/%s' % (g, ds), 'fn': 'pv.props.c17:units', 'params': {'g': g, 'dims': dims}, 'timeout': 40, 'validate': 1})
-            for term in ops.TERMS:
+            for term in (ops.TERMS if (tier == 'thorough' or dims == D[nd][0]) else ()):
                 T.append({'name': 'linearity/%s/%s/%s' % (g, ds, term), 'fn': 'pv.props.c17:linearity',
                           'params': {'g': g, 'dims': dims, 'term': term}, 'timeout': 40, 'validate': 1})
             T.append({'name': 'source_linearity/%s/%s' % (g, ds), 'fn': 'pv.props.c17:source_linearity', 'params': {'g': g, 'dims': dims},
